@@ -10,9 +10,10 @@ import TboxModel.Util
 import TboxModel.C03.Model
 open Tbox.Util Tbox.C03
 
-/-- the descriptors of the harness: six socket pairs on low numbers and two on the numbers 1023 and
+/-- the descriptors of the harness: six socket pairs on low numbers, the read end of a pipe (6), the write end of a pipe (7),
+a TCP socket whose non-blocking connect was refused (8) — `kindOf` in the model — and two socket pairs on the numbers 1023 and
 1024 = FD_SETSIZE - 1 and FD_SETSIZE (the numbering is the real one from 1000 on) -/
-def slotList : List Nat := [0, 1, 2, 3, 4, 5, 1023, 1024]
+def slotList : List Nat := [0, 1, 2, 3, 4, 5, 6, 7, 8, 1023, 1024]
 def fdSetSize : Nat := 1024
 def nFnMax : Nat := 16
 
@@ -54,6 +55,9 @@ def parseAct (w : String) : Option Act :=
     | 'u' => (numSlot r).map (.setR · false)
     | 'w' => (numSlot r).map (.setW · true)
     | 'b' => (numSlot r).map (.setW · false)
+    | 'h' => (numSlot r).map (.cond · 0)
+    | 's' => (numSlot r).map (.cond · 1)
+    | 'E' => (numLt r 1000).map .enableF
     | 't' => (numLt r nFnMax).map .arm
     | 'n' => (numLt r nFnMax).map .post
     | _ => none
@@ -70,6 +74,7 @@ kernel listed the ready descriptors, and the callbacks made (sorted) -/
 structure PassRec where
   digest : String
   syn : Bool
+  quiet : Bool := true     -- no ready descriptor is hung up / in error (there the engines report different masks by design)
   order : List Nat
   keys : List (Nat × Nat)
 
@@ -116,6 +121,17 @@ def expectLine (a : TAcc) (want : String) (what : String) : TAcc :=
 def actTags (s : State) : Act → List String
   | .init e _ _ _ => if (s.evs e).alive && (s.evs e).enabled then ["init-while-enabled"] else []
   | .destroy e => if (s.evs e).alive && (s.evs e).enabled then ["destroy-while-enabled"] else []
+  | .enable e => if (s.evs e).alive && (s.evs e).enabled then ["enable-twice"] else []
+  | .enableF e =>
+    let v := s.evs e
+    if v.alive && v.inited && !v.enabled then
+      match s.recs v.fd with
+      | some r => if r.kev == 0 && v.mask % 8 != 0 then ["ctl-add-refused"] else ["ctl-mod-not-refused"]
+      | none => []
+    else []
+  | .cond f c =>
+    if (condFd s f c).2 then [if c == 0 then (if kindOf f == 0 then (if s.writable f then "peer-close" else "peer-close-unread") else if kindOf f == 1 then "pipe-writer-closed" else "pipe-reader-closed") else "peer-shutwr"]
+    else []
   | _ => []
 
 /-- one API call: the model's `act`, and for `arm`/`post` the acceptor's queues (the harness answers 0
@@ -159,7 +175,8 @@ def rpEvent (w : Wait) (f m : Nat) (p : Rp) (e : Nat) : Rp :=
       ++ (if slotList.any (fun g => sr.1.gen g != r.1.gen g) then ["cb-fd-reuse"] else [])
       ++ (if sr.1.breach && !r.1.breach then ["cb-close-while-referenced"] else [])
       ++ (if v.script.any (fun x => match x with | .arm _ => true | .post _ => true | _ => false) then ["cb-arm-post"] else [])
-      ++ (if m &&& 4 != 0 then ["except-ready"] else []) ++ sr.2.2.2
+      ++ (if m &&& 4 != 0 then ["except-ready"] else [])
+      ++ (if m &&& v.mask % 8 != m then ["cb-mask-beyond-subscription"] else []) ++ sr.2.2.2
     { s := sr.1, qs := sr.2.1, out := p.out ++ [(l1, p.s), (l2, r.1)], tags := p.tags ++ t }
 
 def rpLoop (w : Wait) (f m : Nat) : Rp → List Nat → Rp
@@ -196,7 +213,7 @@ def rpCall (kind : String) (fns : Array (List Act)) (p : Rp) (k : Nat) : Rp :=
 def stateDigest (s : State) : String :=
   let slots := slotList.map fun f =>
     let subs := match s.recs f with | some r => toString r.subs | none => "-"
-    s!"{f}:{actualMask s f}:{s.kern f}:{subs}:{s.isOpen f}"
+    s!"{f}:{actualMask s f}:{s.hup f}:{s.err f}:{s.eof f}:{s.gone f}:{s.kern f}:{subs}:{s.isOpen f}"
   let evs := (List.range s.nEv).map fun e =>
     let v := s.evs e
     s!"{v.alive},{v.inited},{v.fd},{v.mask},{v.oneshot},{v.enabled}"
@@ -286,10 +303,11 @@ def doPass (a0 : TAcc) : TAcc :=
       | none => fail a s!"unparsable K line [{l}]"
       | some ready =>
         if !validReady a.be a.s ready then
-          fail a s!"ready list [{r}] is not (interest ∩ actual readiness) of distinct descriptors in back-end order"
+          let want := slotList.filterMap fun f => if reported a.be a.s f != 0 then some s!"{f}:{reported a.be a.s f}" else none
+          fail a s!"ready list [{r}] is not what the kernel model says this engine reports ({want}): distinct descriptors in back-end order, each with interest ∩ readiness plus the hang-up / error bits of that engine"
         else
           let missing := if badf || a.eintr then [] else slotList.filter fun f =>
-            (interest a.be a.s f &&& actualMask a.s f) != 0 && !(ready.map (·.1)).contains f
+            reported a.be a.s f != 0 && !(ready.map (·.1)).contains f
           let full := a.be == .epoll && ready.length ≥ a.maxE
           if a.be == .epoll && ready.length > a.maxE then
             fail a s!"epoll_wait returned {ready.length} events, max_loop_entries is {a.maxE}" else
@@ -340,6 +358,7 @@ def doPass (a0 : TAcc) : TAcc :=
                 let tb := if a.be == .select then "select" else "epoll"
                 let syn := badf || OrderIndepSyn p1.s ready
                 let pr : PassRec := { digest := stateDigest a.s ++ s!" | {order} {before}", syn := syn, order := ready.map (·.1),
+                                      quiet := ready.all (fun fm => quietFd a.s fm.1),
                                       keys := sortKeys ((cbKeys p3.s).take ncb) }
                 let tt := (if !fired.isEmpty then ["timer-phase"] else []) ++ (if !before.isEmpty then ["next-phase"] else [])
                   ++ (if !fired.isEmpty && !ready.isEmpty then ["timer+ready"] else [])
@@ -347,6 +366,11 @@ def doPass (a0 : TAcc) : TAcc :=
                   ++ (if ready.any (fun fm => (p1.s.recs fm.1).isSome && (findRec (waitOf a.s ready) p1.s fm.1).isNone) then ["timer-made-record-skipped"] else [])
                   ++ (if badf && invalid0.any (fun f => match a.s.recs f with | some r => r.subs.length ≥ 3 | none => false) then ["ebadf-3subs"] else [])
                   ++ (if badf && invalid != invalid0 then ["ebadf-timer-changed-set"] else [])
+                  ++ (if ready.any (fun fm => a.s.hup fm.1) then ["ready-hup"] else [])
+                  ++ (if ready.any (fun fm => a.s.err fm.1) then ["ready-err"] else [])
+                  ++ (if ready.any (fun fm => fm.2 &&& interest a.be a.s fm.1 != fm.2) then ["ready-beyond-interest"] else [])
+                  ++ (if ready.any (fun fm => !quietFd a.s fm.1 && ncb = 0) then ["hup-unmet-mask"] else [])
+                  ++ (if slotList.any (fun f => a.be == .epoll && a.s.isOpen f && a.s.kern f == 0 && interest .select a.s f != 0) then ["dead-registration"] else [])
                 expectLine { a1 with s := p3.s, qs := p3.qs, pend := after, cur := a1.cur ++ [pr],
                                      tags := a1.tags ++ p3.tags ++ [tg, tb] ++ tt ++ (if syn && ready.length ≥ 2 then ["order-indep-syn"] else []) }
                   ("P en=" ++ bitsOf p3.s) (if badf then "after EBADF pass" else "after pass")
@@ -368,6 +392,7 @@ def stepOp (a : TAcc) (line : String) : TAcc :=
           else if sortKeys (x.order.map (·, 0)) != sortKeys (y.order.map (·, 0)) then
             (none, ["cmp-ready-set-differs"])      -- epoll_wait filled its array: the kernel did not report the same descriptors
           else if !(x.syn && y.syn) then (none, ["cmp-order-dependent"])
+          else if !(x.quiet && y.quiet) then (none, ["cmp-hup-err"])
           else if x.keys != y.keys then
             (some s!"back-ends disagree in pass {k} although it satisfies OrderIndepSyn: first run {x.keys} (order {x.order}), second run {y.keys} (order {y.order})", [])
           else
@@ -423,6 +448,8 @@ def stepOp (a : TAcc) (line : String) : TAcc :=
         | .close f => ["fd-reuse"] ++ (if (a.s.recs f).isSome then ["close-while-referenced"] else [])
         | .kill f => if r.2 then ["kill"] ++ (if (a.s.recs f).isSome then ["close-while-referenced"] else []) else []
         | .oob _ => ["oob"]
+        | .cond _ _ => ["cond"]
+        | .enableF _ => ["enableF"]
         | .init _ f _ _ => if f ≥ 1023 then [if r.2 then "high-fd-accepted" else "high-fd-refused"] else []
         | _ => []
       expectLine { a with s := r.1, qs := rq.2, tags := a.tags ++ t } ("P ret=" ++ (if r.2 then "1" else "0") ++ " en=" ++ bitsOf r.1) "api result"
